@@ -10,8 +10,11 @@ R2 in-repo call sites: every constructor call of a gateway class in mysensors/cl
    scripts and the README's python blocks passes only keywords the class accepts.
 R3 version sanitising: safe_is_version is total with fallback "1.4"; every CONST_VERSIONS value
    names a module of the package; get_const has the floor-selection shape.
-The version-floor semantics itself (AwesomeVersion ordering of strings with different section
-counts) is runtime behaviour of a dependency and is NOT decided.
+R4 version strings are never ordered by raw AwesomeVersion comparison outside the sanitiser (the
+   library's ordering is inconsistent across section counts); table selection and the 2.0
+   feature guard go through a helper that compares numeric sections.
+The numeric outcome for every version string (e.g. that 2.3 selects 2.2) remains a value-level
+statement and is not decided beyond these structural clauses.
 """
 from __future__ import annotations
 
@@ -176,13 +179,93 @@ def version_rules(analysis: Analysis, res: RuleResult) -> None:
     res.add("C18-R3", "the five protocol versions have tables", sorted(table) == ["1.4", "1.5", "2.0", "2.1", "2.2"], "mysensors/const.py", f"{sorted(table)}")
     info = analysis.p.func("const:get_const")
     txt = unparse(info.node)
-    shape = "sorted(CONST_VERSIONS, reverse=True)" in txt and "AwesomeVersion(protocol_version) >= AwesomeVersion(const_version)" in txt and "'mysensors.const_14'" in txt
+    # the selector may delegate to private helpers of the module and name its fallback in a constant
+    for q, f in analysis.p.funcs.items():
+        if f.module is info.module and f is not info and f.name.startswith("_") and common.owned_by(analysis, q, {"const:get_const"}):
+            txt += "\n" + unparse(f.node)
+    for nm, expr in info.module.assigns.items():
+        if isinstance(expr, ast.Constant) and isinstance(expr.value, str) and nm in txt:
+            txt += f"\n{nm} = {expr.value!r}"
+    import re as _re
+
+    shape = "sorted(CONST_VERSIONS, reverse=True)" in txt and bool(_re.search(r"version_at_least\(protocol_version, \w+\)|AwesomeVersion\(protocol_version\) >= AwesomeVersion\(\w+\)", txt)) and "'mysensors.const_14'" in txt
     res.add("C18-R3", "const:get_const / selects the highest table version not above the requested one, default 1.4", shape, common.where(analysis, info, info.node), "next(CONST_VERSIONS[v] for v in sorted(..., reverse=True) if requested >= v, 'mysensors.const_14')")
+    # R4: version strings with different section counts must not be ordered by raw AwesomeVersion comparison
+    n_cmp = 0
+    for mod in common.core_modules(analysis):
+        for n in ast.walk(mod.tree):
+            if isinstance(n, ast.Compare) and len(n.ops) == 1 and isinstance(n.ops[0], (ast.Lt, ast.LtE, ast.Gt, ast.GtE)):
+                l, r = unparse(n.left), unparse(n.comparators[0])
+                if l.startswith("AwesomeVersion(") and r.startswith("AwesomeVersion("):
+                    fn = common.func_of_node(analysis, mod, n)
+                    n_cmp += 1
+                    ok = fn == "validation:is_version"
+                    res.add("C18-R4", f"{fn} / no raw AwesomeVersion ordering between a configured / presented version and a table version", ok, common.where(analysis, mod, n), "sanitiser only (lower bound 1.4, inside try)" if ok else f"`{unparse(n)}`: AwesomeVersion does not order versions with different section counts consistently ('2.0.0' >= '2.0' is False), so '2.0.0' selects the tables of an older protocol")
+    helper = analysis.p.funcs.get("const:version_at_least")
+    if helper is not None:
+        h = unparse(helper.node)
+        okh = False
+        for n in ast.walk(helper.node):
+            if isinstance(n, ast.Return) and isinstance(n.value, ast.Compare) and len(n.value.ops) == 1 and isinstance(n.value.ops[0], ast.GtE):
+                l, r = unparse(n.value.left), unparse(n.value.comparators[0])
+                first, second = helper.node.args.args[0].arg, helper.node.args.args[1].arg
+                okh = ".section(" in l and ".section(" in r and "range(" in l and "range(" in r and l.startswith(f"[{first}.section") and r.startswith(f"[{second}.section") and ".sections" in h
+        res.add("C18-R4", "const:version_at_least / compares the numeric sections, missing sections as zero", okh, common.where(analysis, helper, helper.node), "[v.section(i) for i in range(n)] >= [m.section(i) for i in range(n)]")
+        users = set()
+        for mod in common.core_modules(analysis):
+            for c in ast.walk(mod.tree):
+                if isinstance(c, ast.Call) and unparse(c.func) == "version_at_least":
+                    users.add(common.func_of_node(analysis, mod, c))
+        covered = all(any(common.owned_by(analysis, u, {owner}) for u in users) for owner in ("const:get_const", "__init__:Gateway.is_sensor"))
+        res.add("C18-R4", "table selection and the 2.0 feature guard use the numeric comparison", covered, "mysensors/const.py", f"used by {sorted(users)}")
+    else:
+        res.add("C18-R4", "a numeric version comparison helper exists", n_cmp == 1, "mysensors/const.py", "no helper and raw comparisons outside the sanitiser" if n_cmp != 1 else "")
     g = analysis.p.func("__init__:Gateway.__init__")
     gt = unparse(g.node)
     res.add("C18-R3", "__init__:Gateway.__init__ / the protocol version passes the sanitiser before it selects the tables", "protocol_version = safe_is_version(protocol_version)" in gt and "get_const(protocol_version)" in gt, common.where(analysis, g, g.node), "")
     s = analysis.p.classes["sensor:Sensor"].props["protocol_version"]["set"]
     res.add("C18-R3", "sensor:Sensor.protocol_version / a node's presented version passes the same sanitiser", "safe_is_version(value)" in unparse(s.node), common.where(analysis, s, s.node), "")
+
+
+def selector_worker(analysis: Analysis, _spec) -> dict:
+    """Dataflow through get_const: where does the module path that is imported / looked up come from?"""
+    ctx = analysis.context(analysis.versions[-1], "serial", "sync")
+    it = analysis.new_interp(ctx)
+    it.opaque_handlers.pop("const:get_const", None)
+    it.opaque_handlers["const:version_at_least"] = lambda _it, st, info, args, kwargs, node: [("val", st, Unknown("bool", label="version_at_least(protocol_version, table)"))]
+    st = it.new_state()
+    pv = Sym(("root", "protocol_version"), "str")
+    outs = analysis.run_root(it, "const:get_const", [pv], None, st)
+    rows = []
+    for out in outs:
+        kind, s, v = out
+        if kind != "val":
+            rows.append({"kind": kind, "exc": f"{v.cls.__name__}: {v.what}", "witness": describe_path(out)})
+            continue
+        # the path value: argument of import_module, or the key of the module-cache lookup that is returned
+        texts = []
+        for e in s.events:
+            if e.kind == "call" and e.name == "importlib.import_module" and e.args:
+                texts.append(repr(e.args[0].key()))
+        lab = getattr(v, "label", "") if isinstance(v, V) else ""
+        if lab.startswith("item:") and "[" in lab:
+            texts.append(lab[lab.index("[") :])
+        elif isinstance(v, V) and isinstance(v.key(), tuple) and v.key() and v.key()[0] == "item":
+            texts.append(repr(v.key()[2]))
+        prov = []
+        for txt in texts:
+            core = txt.lstrip("[(")
+            if "next:" in txt or "CONST_VERSIONS" in txt or core.startswith("'u', 'item:(\\'c\\', \\'dict\\'") or core.startswith("'u', \"item:('c', 'dict'"):
+                prov.append(("floor-search", txt[:100]))
+            elif "'get'" in txt or "get:" in txt:
+                derived = any(tok in txt for tok in ("slice:", "str(", "binop:", "fstr:", "split", "strip(", "lower("))
+                prov.append(("cache-by-derived-key" if derived else "cache-by-parameter", txt[:140]))
+            elif txt.startswith("('c'") or txt.startswith("[('c'"):
+                prov.append(("constant", txt[:80]))
+            else:
+                prov.append(("other", txt[:140]))
+        rows.append({"kind": kind, "prov": prov, "witness": describe_path(out)})
+    return {"rows": rows}
 
 
 def run(analysis: Analysis, tier: str) -> RuleResult:
@@ -229,6 +312,37 @@ def run(analysis: Analysis, tier: str) -> RuleResult:
         bad = [k for k in s["kw"] if k not in acc]
         res.add("C18-R2", f"{s['where'].rsplit(':', 1)[0]} / {s['text'][:70]}", not bad, s["where"], "keywords accepted" if not bad else f"keywords {bad} are not accepted by {s['cls']}")
     version_rules(analysis, res)
+    for summ in common.pmap(analysis, selector_worker, ["x"]):
+        seen = False
+        for r in summ["rows"]:
+            if r["kind"] != "val":
+                continue
+            for kind_, txt in r["prov"]:
+                seen = True
+                ok = kind_ in ("floor-search", "constant", "cache-by-parameter")
+                res.add("C18-R3", f"const:get_const / the table module is the one the floor search selects for this very version string ({kind_})", ok, "mysensors/const.py", txt if ok else f"the module path comes from {kind_} {txt}: two different version strings can share a table decided by whichever was resolved first", r["witness"] if not ok else None)
+        if not seen:
+            raise AnalysisError("C18-R3: no path of get_const imports / looks up a table module")
+    # options that act through the topic mapping: honoured downstream (shared with C17-R2 / R4)
+    from . import c17
+
+    before = len(res.obs)
+    c17.to_msg_ast(analysis, res)
+    for summ in common.pmap(analysis, c17.to_msg_worker, ["x"]):
+        acc = [r for r in summ["rows"] if r["kind"] == "val" and not r["none"]]
+        for r in acc:
+            res.add("C18-R1", "in_prefix is honoured: a topic is accepted only when its prefix equals the configured inbound prefix", r["prefix_equal"], "mysensors/gateway_mqtt.py", "prefix == transport.in_prefix on the accepting path", r["witness"] if not r["prefix_equal"] else None)
+    for o in res.obs[before:]:
+        if o.rule.startswith("C17"):
+            o.rule = "C18-R1"
+            o.construct = "in_prefix honoured / " + o.construct
+    res.reindex()
+    send = analysis.p.func("gateway_mqtt:MQTTTransport.send")
+    res.add("C18-R1", "out_prefix is honoured: published topics are out_prefix + topic", "self.out_prefix + topic" in unparse(send.node), common.where(analysis, send, send.node), "topic = self.out_prefix + topic")
+    sub = analysis.p.func("gateway_mqtt:MQTTTransport.handle_subscription")
+    res.add("C18-R1", "in_prefix is honoured: subscriptions are in_prefix + template", "self.in_prefix + topic" in unparse(sub.node), common.where(analysis, sub, sub.node), "topic = self.in_prefix + topic")
+    retain_ok = "self._retain" in unparse(send.node)
+    res.add("C18-R1", "retain is honoured: the flag is passed to the publish callback", retain_ok, common.where(analysis, send, send.node), "pub_callback(topic, payload, qos, self._retain)")
     res.units = {"classes": list(CLASS_OPTS), "constructor_runs": n, "call_sites": len(sites), "source_digest": analysis.p.digest()}
     res.not_decided = ["the version-floor rule for three-part / unknown versions (AwesomeVersion ordering)", "intent of positional arguments in the README's first example"]
     res.trusted = ["sa/interp.py argument binding", "sa/extmodel.py"]
